@@ -131,6 +131,10 @@ def generate(rng: Prng, tier: str) -> dict:
             p["offset"] = w.choice([[8192.0, -4096.0, 2048.0], [16384.0, 0.0, 0.0], [-8192.0, 8192.0, 8192.0],
                                     [1024.0, 1024.0, 1024.0]])
             p["scale"] = w.choice([1.0 / 16, 1.0 / 64, 1.0 / 64])
+            if rng.stream("very_far").chance(0.4):
+                # ordinary compartment lengths, a quarter of a million units out (float32 still resolves 1/32 there)
+                p["offset"] = rng.stream("very_far").choice([[262144.0, 1024.0, -512.0], [-524288.0, 0.0, 0.0], [1024.0, 262144.0, 262144.0]])
+                p["scale"] = 1.0
         p["mc"] = kind == "two_arm" and w.chance(0.06)
         if kind == "chain":
             pool = [1, 2, 3, 3, 4, 5, 5, 6, 7, 8, 9, "low", "middle", "high"]
@@ -158,6 +162,10 @@ def generate(rng: Prng, tier: str) -> dict:
                 q = t["pid"][i]
                 for c in "xyz":
                     t[c][i] = t[c][q]
+    p["custom_names"] = h2.chance(0.08)  # the tree's columns under other names (SWCNames)
+    # header comments riding on the tree: text, never geometry
+    p["comments"] = h2.choice([None, None, ["SCALE 0.5 0.5 2.0"], [" SCALE 2 2 2", "ORIGINAL_SOURCE x"], ["scale 0.1 0.1 0.1"],
+                               ["VOLUME 1.0", "accuracy 1"]])
     # accuracy levels handed over as NumPy integers (`for a in np.arange(1, 5)`): level 1 is level 1
     p["level_type"] = h2.choice(["int", "int", "int", "np.int64", "np.int32", "np.uint8"])
     if kind != "arbitrary":
@@ -444,7 +452,7 @@ def execute(program: dict) -> dict:
     rounds = [None] + list(program.get("edits") or []) + [{"axis": a} for a in (program.get("followup_axes") or [])]
     with World() as world:
         try:
-            tree = common.build_tree(t, source="gen")
+            tree = common.build_tree(t, source="gen", comments=program.get("comments"), custom_names=bool(program.get("custom_names")))
             shared: dict = {"level_type": program.get("level_type", "int"), "fp_errors": program.get("fp_errors"), "warnings": program.get("warnings")}
             for ri, edit in enumerate(rounds):
               if violation:
@@ -453,7 +461,7 @@ def execute(program: dict) -> dict:
               if edit is not None and "axis" in edit:
                   # session history: the same solid along another direction, a new tree object, same process
                   t, pos, axis, overlap, n = prepare(dict(program, axis=edit["axis"]))
-                  tree = common.build_tree(t, source="gen")
+                  tree = common.build_tree(t, source="gen", comments=program.get("comments"), custom_names=bool(program.get("custom_names")))
                   shared = {"level_type": program.get("level_type", "int"), "fp_errors": program.get("fp_errors"), "warnings": program.get("warnings")}
                   schedules = program["schedules"][:1]
                   world.log("followup_axis", ri, [float.hex(float(v)) for v in edit["axis"]])
